@@ -12,7 +12,8 @@ for f in sorted(glob.glob(os.path.join(V, "work", "mutres", "C*_*m*.json"))):
     name = os.path.basename(f)[:-5]
     pid, mk = name.split("_")
     src = ("/tmp/mut2_%s/out/%s" % (pid, mk[2:]) if mk.startswith("r2") else
-           "/tmp/mut3_%s/out/%s" % (pid, mk[2:]) if mk.startswith("r3") else "/tmp/mut_%s/out/%s" % (pid, mk))
+           "/tmp/mut3_%s/out/%s" % (pid, mk[2:]) if mk.startswith("r3") else
+           "/tmp/mut5_%s/out/%s" % (pid, mk[2:]) if mk.startswith("r5") else "/tmp/mut_%s/out/%s" % (pid, mk))
     confirmed = r.get("demo_clean_rc") == 0 and r.get("demo_mutant_rc") == 1 and r.get("tests_failed") == 0 and r.get("tests_passed", 0) >= 129
     if not confirmed or not os.path.isdir(src):
         rows.append((name, "NOT CONFIRMED", r.get("demo_clean_rc"), r.get("demo_mutant_rc"), r.get("tests_tail")))
